@@ -25,10 +25,10 @@ type byteBodyResult struct {
 }
 
 type byteBodyEval struct {
-	c   *core.Ctx
-	pk  *packagesPackage
-	v   string // name of the byte variable
-	in  *absint.Interp
+	c  *core.Ctx
+	pk *packagesPackage
+	v  string // name of the byte variable
+	in *absint.Interp
 }
 
 func newByteBodyEval(c *core.Ctx, pk *packagesPackage, v string) *byteBodyEval {
